@@ -81,20 +81,6 @@ Definition pt_pie : N := 10.    Definition pt_radar : N := 11.  Definition pt_sc
 
 (* ------------------------------------------------------------------ text *)
 
-(** What an XML parser makes of literal text: CR LF and lone CR become LF.  The
-    writers build XML from text templates, so every string passes through this. *)
-Fixpoint xml_norm (s : str) : str :=
-  match s with
-  | [] => []
-  | c :: r =>
-      if N.eqb c 13 then
-        10%N :: match r with
-                | d :: r' => if N.eqb d 10 then xml_norm r' else xml_norm r
-                | [] => []
-                end
-      else c :: xml_norm r
-  end.
-
 Definition s_general : str := [71; 101; 110; 101; 114; 97; 108]%N.
 Definition s_datefmt : str := [121; 121; 121; 121; 92; 45; 109; 109; 92; 45; 100; 100]%N. (* yyyy\-mm\-dd *)
 Definition s_None : str := [78; 111; 110; 101]%N.
@@ -243,18 +229,20 @@ Fixpoint pts_from (i : Z) (vals : list (option num)) : list pt :=
   | Some v :: r => mkPt i v :: pts_from (i + 1) r
   end.
 
-(** numRef_xml / _val_tmpl: c:formatCode (the number format, XML-escaped by the writer,
-    so any text survives), c:ptCount val = len(values), one c:pt per value that is not
+(** numRef_xml / _val_tmpl: c:formatCode (the number format; the writer escapes markup
+    characters and writes a carriage return as a character reference, so any text of XML
+    characters survives verbatim), c:ptCount val = len(values), one c:pt per value that is not
     None, idx = its position. *)
 Definition num_cache (fmt : str) (vals : list (option num)) : cache :=
-  mkCache (Some (xml_norm fmt)) [Z.of_nat (length vals)] (pts_from 0 vals).
+  mkCache (Some (fmt)) [Z.of_nat (length vals)] (pts_from 0 vals).
 
 Fixpoint enum_pts (i : Z) (l : list str) : list pt :=
   match l with [] => [] | s :: r => mkPt i s :: enum_pts (i + 1) r end.
 
-(** tx: one c:pt with the series name; an empty name leaves c:v without a text node. *)
+(** tx: one c:pt with the series name (escaped, carriage return as a character reference:
+    verbatim after parsing); an empty name leaves c:v without a text node. *)
 Definition tx_names (name : str) : list str :=
-  match xml_norm name with [] => [] | n => [n] end.
+  match name with [] => [] | n => [n] end.
 
 (** _CategorySeriesXmlWriter.cat / cat_xml; [Err ValueErr] when the depth is not uniform. *)
 Definition write_cat (d1904 : bool) (f : list cat_tree) (fmt : option str) : res catx :=
@@ -264,14 +252,14 @@ Definition write_cat (d1904 : bool) (f : list cat_tree) (fmt : option str) : res
       let count := leaves_f f in
       let first_numeric := match f with t :: _ => is_numeric_label (tree_label t) | [] => false end in
       if Nat.eqb d 1 && first_numeric then
-        Ok (mkCatx 1 (Some (xml_norm (cats_number_format f fmt d))) [count]
-              (enum_pts 0 (map (fun t => xml_norm (label_numstr d1904 (tree_label t))) f)) [])
+        Ok (mkCatx 1 (Some ((cats_number_format f fmt d))) [count]
+              (enum_pts 0 (map (fun t => (label_numstr d1904 (tree_label t))) f)) [])
       else if Nat.eqb d 1 then
         Ok (mkCatx 0 None [count]
-              (enum_pts 0 (map (fun t => xml_norm (label_str (tree_label t))) f)) [])
+              (enum_pts 0 (map (fun t => (label_str (tree_label t))) f)) [])
       else
         Ok (mkCatx 2 None [count] []
-              (map (map (fun il => mkPt (fst il) (xml_norm (label_str (snd il))))) (levels f)))
+              (map (map (fun il => mkPt (fst il) ((label_str (snd il))))) (levels f)))
   end.
 
 Definition others (tags : list N) : list child := map (fun t => KOther t 0) tags.
